@@ -641,10 +641,21 @@ mod n {
     // C10: the indicators use the table of the MODEL's climate zone and the orientation class of the window's wall
     #[test]
     fn n_c10_zone_and_class() {
-        drive("C10.zone", "Model::energy_indicators: one window on a wall of azimuth {0,90,-90,180,-40} / a roof, 4 climate zones: Q_sol;jul = 0.77 x 0.8 x A x H_sol;jul[zone][class]", |c| {
+        drive("C10.zone", "Model::energy_indicators: one window on a wall facing each of the 8 compass classes / on a roof / on a floor over outside air, all 32 climate zones: Q_sol;jul = 0.77 x 0.8 x A x H_sol;jul[zone][class]", |c| {
             use crate::climatedata::{total_radiation_in_july_by_orientation, ClimateZone};
-            let zone = c.of(&[ClimateZone::D3, ClimateZone::A3c, ClimateZone::E1, ClimateZone::Alfa1c]);
-            let (tilt, az, class) = c.of(&[(90.0f32, 0.0f32, Orientation::S), (90.0, 90.0, Orientation::E), (90.0, -90.0, Orientation::W), (90.0, 180.0, Orientation::N), (90.0, -40.0, Orientation::SW), (0.0, 0.0, Orientation::HZ)]);
+            use std::convert::TryFrom;
+            let zname = climate::CTE_CLIMATEZONES[c.pick(climate::CTE_CLIMATEZONES.len())];
+            let zone = match ClimateZone::try_from(zname) {
+                Ok(z) => z,
+                Err(_) => {
+                    c.check("C10.table.zone_parses", false, || format!("zone {} does not parse", zname));
+                    return;
+                }
+            };
+            let (tilt, az, class) = c.of(&[
+                (90.0f32, 0.0f32, Orientation::S), (90.0, 45.0, Orientation::SE), (90.0, 90.0, Orientation::E), (90.0, 135.0, Orientation::NE), (90.0, 180.0, Orientation::N),
+                (90.0, -135.0, Orientation::NW), (90.0, -90.0, Orientation::W), (90.0, -40.0, Orientation::SW), (0.0, 0.0, Orientation::HZ), (180.0, 30.0, Orientation::HZ),
+            ]);
             c.note(format!("zone {} tilt {} azimuth {}", zone, tilt, az));
             let mut m = mk::empty_model();
             m.meta.climate = zone;
@@ -656,7 +667,9 @@ mod n {
             let h = total_radiation_in_july_by_orientation(&zone)[&class];
             let want = 0.77f64 * (1.0 - 0.20) * 3.0 * h as f64;
             c.check("C10.zone.gains", approx64(ind.q_soljul_data.Q_soljul, want, 1e-4, 1e-4), || format!("Q_sol;jul {} want {} (H {} for {:?} in {})", ind.q_soljul_data.Q_soljul, want, h, class, zone));
-            c.check("C10.zone.q", approx64(ind.q_soljul_data.q_soljul, want / 20.0, 1e-4, 1e-5), || format!("q_sol;jul {} want {}", ind.q_soljul_data.q_soljul, want / 20.0));
+            // the reference area is the floor area of the space: the 4 x 5 floor, plus the 4 x 3 element when it is a floor too
+            let a_ref = if tilt == 180.0 { 32.0 } else { 20.0 };
+            c.check("C10.zone.q", approx64(ind.q_soljul_data.q_soljul, want / a_ref, 1e-4, 1e-5), || format!("q_sol;jul {} want {}", ind.q_soljul_data.q_soljul, want / a_ref));
             c.check("C10.zone.class", ind.q_soljul_data.detail.len() == 1 && ind.q_soljul_data.detail.contains_key(&class), || format!("breakdown keys {:?} want {:?}", ind.q_soljul_data.detail.keys().collect::<Vec<_>>(), class));
             c.nontrivial(format!("{} {} {}", zone, tilt, az));
             c.sample(|| format!("zone {} class {:?} -> Q {}", zone, class, ind.q_soljul_data.Q_soljul));
